@@ -267,6 +267,8 @@ pub fn generate_project(seed: u64, index: u64) -> Project {
     if let Some(n) = &namespaces {
         cfg.push_str(&format!("namespaces = [{}]\n", n.iter().map(|l| format!("\"{l}\"")).collect::<Vec<_>>().join(", ")));
     }
+    // only read by the client-side dynamic-loading configuration of the code generator
+    cfg.push_str(if namespaces.is_some() { "translations-path = \"i18n/{namespace}/{locale}.json\"\n" } else { "translations-path = \"i18n/{locale}.json\"\n" });
     if let Some((a, b)) = &inherits {
         cfg.push_str(&format!("inherits = {{ {a} = \"{b}\" }}\n"));
     }
